@@ -11,7 +11,7 @@ from __future__ import print_function
 import os, sys, random
 sys.path.insert(0, os.path.dirname(os.path.dirname(os.path.abspath(__file__))))
 import numpy as np
-from common import runner, enginea
+from common import runner, enginea, kernels
 from common.enginea import simlib
 
 OFFS = [(-1, -1), (-1, 0), (-1, 1), (0, -1), (0, 0), (0, 1), (1, -1), (1, 0), (1, 1)]
@@ -193,6 +193,16 @@ class C13(object):
             desc["col"] = [int(x) + coff for x in c]
             desc["val"] = [float(x) for x in im[m]]
             cfg["team"] = 1
+            if rnd.random() < 0.25:
+                # another Python thread labels another frame at the same time (the kernel runs without the GIL)
+                ns2, nf2 = rnd.choice([3, 4, 6, 9]), rnd.choice([3, 5, 8])
+                im2 = make_image(rnd, ns2, nf2, rnd.choice(KINDS))
+                m2 = g.random((ns2, nf2)) < rnd.choice([0.3, 0.7, 1.0])
+                if not m2.any():
+                    m2[0, 0] = True
+                r2, c2 = np.nonzero(m2)
+                desc["concurrent"] = {"row": [int(x) for x in r2], "col": [int(x) for x in c2], "val": [float(x) for x in im2[m2]],
+                                      "ccfg": enginea.draw_cfg(rnd, max_team=4)}
         return desc
 
     def describe(self, desc):
@@ -336,6 +346,26 @@ class C13(object):
                     if canon(dl) != canon(lab):
                         viol = {"class": "sparse-dense-partition", "key": entry + ":sparse-dense-partition",
                                 "detail": "sparse partition differs from the dense partition of the same pixels"}
+            nconc = 0
+            if viol is None and desc.get("concurrent"):
+                c2 = desc["concurrent"]
+                frames = [(row, col, val), (np.array(c2["row"], np.uint16), np.array(c2["col"], np.uint16), np.array(c2["val"], np.float32))]
+                specs = [(entry, {"v": v_, "i": r_, "j": c_, "nnz": len(v_), "MV": [len(v_)], "iMV": [len(v_)], "labels": [len(v_)]},
+                          {"v": "in", "i": "in", "j": "in", "MV": "work", "iMV": "work", "labels": "out"}) for r_, c_, v_ in frames]
+                outs, stc = kernels.run_concurrent(sim, specs, c2["ccfg"], gstyle=desc["gstyle"], pct_est=max(50, 40 * (n + len(c2["val"]))))
+                nconc = 1
+                v = enginea.viol_from_stats(stc, entry, {})
+                if v is not None:
+                    v["key"] = entry + ":concurrent:" + v["class"]
+                    viol = v
+                else:
+                    for q, ((r_, c_, v_), (ret_q, arrs)) in enumerate(zip(frames, outs)):
+                        rq, nq = ref_sparse(r_, c_, v_)
+                        if ret_q != nq or not np.array_equal(arrs["labels"], rq):
+                            viol = {"class": "not-reentrant", "key": entry + ":not-reentrant",
+                                    "detail": "two Python threads label two different frames at the same time: caller %d gets %d labels "
+                                              "(frame has %d maxima) or other labels than steepest ascent gives" % (q, ret_q, nq)}
+                            break
             out = lab
             wdig = enginea.sha(row, col, val)
             nontrivial = n >= 2
@@ -343,6 +373,7 @@ class C13(object):
                "sig": "%s/%s/%x" % (wdig, sorted(st["team_hist"].items()), st["conflict_sig"]),
                "nontrivial": nontrivial, "viol": viol, "measures": enginea.run_measures(st, cfg)}
         res["measures"]["variant"] = {entry: 1}
+        res["measures"]["concurrent_frame_pairs"] = 1 if (entry != "localmaxlabel" and desc.get("concurrent") and viol is None) else 0
         res["measures"]["image_kind"] = {desc["kind"]: 1}
         if want_switches:
             res["switches"] = sim.switches()
